@@ -11,10 +11,17 @@ EXTENDS GtfsRealtime, Json
 
 CONSTANT TraceFile
 Trace == ndJsonDeserialize(TraceFile)
-VARIABLES l, nCF      \* nCF: how many messages were conflict-free (the clauses of C02/C04 and order-independence applied)
-Init == l = 1 /\ nCF = 0
+VARIABLES l, nCF, drift     \* nCF: conflict-free messages (the clauses of C02/C04 and order-independence applied);
+                            \* drift: runs whose hook-reported merge-table sizes differ from the operational model's, step by step
+Init == l = 1 /\ nCF = 0 /\ drift = 0
 
 EntsOf(msg, run) == [i \in DOMAIN run.order |-> msg.ents[run.order[i]]]
+
+(* step-level conformance of the merge loop: not a clause of any property, counted as model drift *)
+StepsAgree(msg, run) ==
+    LET want == MergeTrace(EntsOf(msg, run)) IN
+    /\ Len(run.steps) = Len(want)
+    /\ \A i \in DOMAIN want : SubSeq(run.steps[i], 2, 6) = want[i] /\ run.steps[i][1] = 0
 
 AlertClauses(ents, r, P(_, _, _)) ==
     \A i \in DOMAIN ents : ents[i].k = "al" =>
@@ -51,8 +58,9 @@ Step ==
                 cf => \A k \in Runs : (Ok(k) /\ Ok(1) /\ e.runs[k].zone = e.runs[1].zone) =>
                          C07_SameTripsVehiclesLinks(e.runs[k].res, e.runs[1].res))
     /\ nCF' = nCF + (IF ConflictFree(Trace[l].msg.ents) THEN 1 ELSE 0)
+    /\ drift' = drift + Cardinality({k \in DOMAIN Trace[l].runs : Trace[l].runs[k].err = "" /\ ~StepsAgree(Trace[l].msg, Trace[l].runs[k])})
     /\ l' = l + 1
-    /\ (l = Len(Trace) => PrintT(<<"COUNT", "conflict_free_messages", nCF'>>))
-Spec == Init /\ [][Step]_<<l, nCF>>
+    /\ (l = Len(Trace) => PrintT(<<"COUNT", "conflict_free_messages", nCF'>>) /\ PrintT(<<"DRIFT", drift'>>))
+Spec == Init /\ [][Step]_<<l, nCF, drift>>
 TraceAccepted == TLCGet("stats").diameter - 1 = Len(Trace)
 =============================================================================
